@@ -59,6 +59,9 @@ const (
 type DoneWithState struct {
 	*interop.Done
 	State statejson.InternalStateDescription
+	// InvokeID of the invoke this message completes (empty if unknown). AwaitRelease uses it to drop a
+	// message that was produced for an earlier invoke after a reset had already drained the channel.
+	InvokeID string
 }
 
 func (s *DoneWithState) String() string {
@@ -547,7 +550,7 @@ func (s *Server) FastInvoke(w http.ResponseWriter, i *interop.Invoke, direct boo
 	go func() {
 		if s.invoker == nil {
 			// Reset occurred, do not send invoke request
-			s.InvokeDoneChan <- DoneWithState{State: s.InternalStateGetter()}
+			s.InvokeDoneChan <- DoneWithState{State: s.InternalStateGetter(), InvokeID: invokeID}
 			s.setRuntimeState(runtimeInvokeComplete)
 			return
 		}
@@ -574,12 +577,13 @@ func (s *Server) FastInvoke(w http.ResponseWriter, i *interop.Invoke, direct boo
 			}
 			doneFail := doneFailFromInvokeFailure(invokeFailure)
 			s.InvokeDoneChan <- DoneWithState{
-				Done:  &interop.Done{ErrorType: doneFail.ErrorType, Meta: doneFail.Meta},
-				State: s.InternalStateGetter(),
+				Done:     &interop.Done{ErrorType: doneFail.ErrorType, Meta: doneFail.Meta},
+				State:    s.InternalStateGetter(),
+				InvokeID: invokeID,
 			}
 		} else {
 			done := doneFromInvokeSuccess(invokeSuccess)
-			s.InvokeDoneChan <- DoneWithState{Done: done, State: s.InternalStateGetter()}
+			s.InvokeDoneChan <- DoneWithState{Done: done, State: s.InternalStateGetter(), InvokeID: invokeID}
 		}
 	}()
 
@@ -792,34 +796,41 @@ func (s *Server) AwaitRelease() (*statejson.ReleaseResponse, error) {
 		s.setRuntimeState(runtimeInvokeComplete)
 	}()
 
-	select {
-	case doneWithState := <-s.InvokeDoneChan:
-		if len(doneWithState.ErrorType) > 0 && string(doneWithState.ErrorType) == ErrInitDoneFailed.Error() {
-			return nil, ErrInitDoneFailed
-		}
+	for {
+		select {
+		case doneWithState := <-s.InvokeDoneChan:
+			if doneWithState.InvokeID != "" && doneWithState.InvokeID != s.GetCurrentInvokeID() {
+				// completion of an earlier invoke, sent after its reset had drained the channel
+				log.Warnf("Discard DONE response of invoke %s", doneWithState.InvokeID)
+				continue
+			}
+			if len(doneWithState.ErrorType) > 0 && string(doneWithState.ErrorType) == ErrInitDoneFailed.Error() {
+				return nil, ErrInitDoneFailed
+			}
 
-		if len(doneWithState.ErrorType) > 0 {
-			log.Errorf("Invoke DONE failed: %s", doneWithState.ErrorType)
-			return nil, ErrInvokeDoneFailed
-		}
+			if len(doneWithState.ErrorType) > 0 {
+				log.Errorf("Invoke DONE failed: %s", doneWithState.ErrorType)
+				return nil, ErrInvokeDoneFailed
+			}
 
-		releaseResponse := statejson.ReleaseResponse{
-			InternalStateDescription: &doneWithState.State,
-			ResponseMetrics: statejson.ResponseMetrics{
-				RuntimeResponseLatencyMs: doneWithState.Meta.RuntimeResponseLatencyMs,
-				Dimensions: statejson.ResponseMetricsDimensions{
-					InvokeResponseMode: statejson.InvokeResponseMode(
-						doneWithState.Meta.MetricsDimensions.InvokeResponseMode,
-					),
+			releaseResponse := statejson.ReleaseResponse{
+				InternalStateDescription: &doneWithState.State,
+				ResponseMetrics: statejson.ResponseMetrics{
+					RuntimeResponseLatencyMs: doneWithState.Meta.RuntimeResponseLatencyMs,
+					Dimensions: statejson.ResponseMetricsDimensions{
+						InvokeResponseMode: statejson.InvokeResponseMode(
+							doneWithState.Meta.MetricsDimensions.InvokeResponseMode,
+						),
+					},
 				},
-			},
+			}
+
+			s.Release()
+			return &releaseResponse, nil
+
+		case <-s.reservationContext.Done():
+			return nil, ErrReleaseReservationDone
 		}
-
-		s.Release()
-		return &releaseResponse, nil
-
-	case <-s.reservationContext.Done():
-		return nil, ErrReleaseReservationDone
 	}
 }
 
